@@ -393,6 +393,52 @@ pub fn run(ctx: &Ctx, replay: Option<&J>, idem: bool) -> i32 {
             progs.push(Prog { src: s, class: "size-family".into() });
         }
     }
+    // padding family: compact programs written with enormous indentation, blank lines inside brackets
+    // and alignment blanks - the layout may depend on the tree and the width only, never on how wide
+    // the source text happened to be
+    {
+        let compact = [
+            "rates = [0.0125, 0.015, 0.0175, 0.02, 0.0225, 0.025]",
+            "r = {a: 1, b: [2, 3], c: {d: 4}}",
+            "t = f(a, g(b, c), [d, e])",
+            "m = [[1, 2], [3, 4], [5, 6]]",
+            "v = if a > b then [a, b] else {k: a}",
+            "output z = [f(1), g(2, 3), h([4])]",
+            "w = (a + b) * (c - d)",
+            "q = xs via (x => [x, x]) where (p => p[0] > 1)",
+        ];
+        for c in compact {
+            for pad in [8usize, 44, 100, 300] {
+                for blanks in [0usize, 1, 3] {
+                    let nl = format!("{}{}", "\n".repeat(blanks + 1), " ".repeat(pad));
+                    let mut t = String::new();
+                    for ch in c.chars() {
+                        match ch {
+                            '[' | '{' | '(' => {
+                                t.push(ch);
+                                t.push_str(&nl);
+                            }
+                            ',' => {
+                                t.push(ch);
+                                t.push_str(&nl);
+                            }
+                            ']' | '}' | ')' => {
+                                t.push_str(&nl);
+                                t.push(ch);
+                            }
+                            '=' | ':' if pad < 100 => {
+                                t.push_str(&" ".repeat(pad / 4));
+                                t.push(ch);
+                                t.push_str(&" ".repeat(pad / 4));
+                            }
+                            _ => t.push(ch),
+                        }
+                    }
+                    progs.push(Prog { src: t.replace("= >", "=>").replace("=  >", "=>"), class: "padding-family".into() });
+                }
+            }
+        }
+    }
     for (name, text) in corpus() {
         // whole files and each statement alone
         progs.push(Prog { src: text.clone(), class: format!("corpus:{}", name) });
